@@ -15,6 +15,14 @@ def fuzz(pkg, run, t="45s"):
     return {"pkg": pkg, "run": run, "kind": "fuzz", "tiers": ("thorough",), "fuzztime": {"thorough": t}}
 
 CHECKS = {
+    "C15": {
+        "level": "exploration",
+        "assumptions": ["multibuf creates its temporary files in $TMPDIR, which the check points at a private empty directory", "in-process ServeHTTP: 'exchange completed' = ServeHTTP returned"],
+        "jobs": [
+            {"pkg": "props/c15", "run": "^TestC15_Regression$", "kind": "plain"},
+            rapid("props/c15", "^TestC15_LimitsAndTempFiles$", 6000, 60000, shards_t=8),
+        ],
+    },
     "C07": {
         "level": "exploration",
         "assumptions": ["the reference evaluator implements standard boolean/comparison semantics with Go operator precedence", "an implicit status counts as 200 for ResponseCode()", "handlers that declare a Content-Length declare the true one"],
@@ -123,6 +131,11 @@ CHECKS = {
 
 # Texts for MANIFEST.json (level text, trusted base, technique) per claimed property.
 MANIFEST_TEXT = {
+    "C15": {
+        "level": "Generated request/response sizes placed below, at and above the memory thresholds and maxima (zero = unlimited; maximum below, equal to and above the threshold), declared or chunked request framing, 1-6 response writes, methods/statuses with and without a deliverable body, retry expressions that fire or decline; checked for 413-without-invocation, error-status-without-leaked-bytes, intact delivery otherwise, and an empty private temp directory after every exchange (spilling is confirmed from inside the handler). Exploration.",
+        "note": "Trusts the private TMPDIR observation (os.ReadDir) and that multibuf honours $TMPDIR.",
+        "technique": "property-based testing (rapid): boundary-biased size generators, resource-leak invariant over a private temp directory",
+    },
     "C07": {
         "level": "Generated per-attempt handler scripts (explicit/implicit status, header sets, body write chunking incl. no write, optional true Content-Length) and generated retry expressions from the grammar are run through the buffer into an event-recording writer (and, for a share, a real server and client); an independent evaluator predicts the number of invocations (capped at 11) and the client record must be exactly the final attempt's status, header multiset and bytes, with nothing from discarded attempts. A coverage-guided target drives the same oracle in the thorough tier. Exploration.",
         "note": "Trusts the reference expression evaluator and the recording ResponseWriter (which follows net/http semantics: first WriteHeader/Write fixes the head, WriteHeader(0) panics).",
